@@ -2280,7 +2280,7 @@ class SymEx:
         return bound
 
     _TRANSPARENT_DECOS = ('property', 'staticmethod', 'classmethod', 'abstractmethod', 'setter', 'getter', 'wraps', 'lru_cache', 'cache', 'cached_property',
-                          'contextmanager', 'dataclass', 'total_ordering', 'overload', 'final', 'override')
+                          'contextmanager', 'dataclass', 'total_ordering', 'overload', 'final', 'override', 'cached_property')
 
     def _wrappers(self, callee):
         """decorator expressions of callee that wrap it (outermost first); None if one of them cannot be evaluated in the package"""
@@ -3215,8 +3215,8 @@ def _is_generator(fn):
 
 def _dict_of_zip(z, base):
     """dict(zip(d.keys(), [f(v) for v in d.values()]))  ==  {k: f(v) for k, v in d.items()}"""
-    if not (z[0] == 'call' and z[1] == ('ext', 'ZIP') and len(z[2]) == 2 and not z[3]):
-        return None
+    if not (z[0] == 'call' and z[1] == ('ext', 'ZIP') and len(z[2]) == 2 and not (set(dict(z[3])) - {'strict'})):
+        return None         # (strict=True only adds a length check)
     ks, vs = z[2]
     while ks[0] == 'call' and ks[1] in (('ext', 'LIST'), ('ext', 'TUPLE')) and len(ks[2]) == 1:
         ks = ks[2][0]
